@@ -59,10 +59,21 @@ def nontrivial(r):
 
 
 def run(ctx):
-    return common.conductor_run(
+    out = common.conductor_run(
         ctx, "C12", FAM, common.project_full, monitors.c12, features, nontrivial, 300, 6000,
         rule="definitions with with-items tasks (0-3 items, concurrency absent/1/2/3/expression/0, item keys) under random "
              "histories with pause/cancel/rerun and intermediate item statuses; non-trivial = item actions were offered")
+    # tie of the formal with-items provider protocol (ProviderSysItems.v, what C12b/c quantify over) to the engine
+    if ctx["model_ok"]:
+        from harness import syscheck
+        n, clean, fails = syscheck.run_items(ctx["seed"] % 100000, 8 if ctx["tier"] == "quick" else 60)
+        out["provider_protocol_runs_checked"] = {"runs": n, "with_both_flags_false": clean,
+                                                 "what": "with-items protocol histories run on the engine through the reference "
+                                                         "provider and through ProviderSysItems.isys_run inside Coq: same final "
+                                                         "state, in-flight set, fault flag"}
+        for f in fails:
+            out["violations"].append(dict(f, property="C12"))
+    return out
 
 
 def replay(payload):
